@@ -198,14 +198,14 @@ func (d *SFDecoder) getSampleInfo() (uint32, uint32, error) {
 	sfTypeEnterprise = sfType >> 12 // 20 bytes enterprise
 	sfTypeFormat = sfType & 0xfff   // 12 bytes format
 
-	// supports standard sflow data
-	if sfTypeEnterprise != 0 {
-		d.reader.Seek(int64(sfDataLength), 1)
-		return 0, 0, errNoneEnterpriseStandard
-	}
-
 	if err = read(d.reader, &sfDataLength); err != nil {
 		return 0, 0, errDataLengthUnknown
+	}
+
+	// supports standard sflow data: an enterprise sample keeps its full
+	// type word, which no supported format equals, so it is skipped by its length
+	if sfTypeEnterprise != 0 {
+		return sfType, sfDataLength, nil
 	}
 
 	return sfTypeFormat, sfDataLength, nil
